@@ -54,3 +54,23 @@ Definition impl_meets_ref (c : scase) : bool :=
                                 | x :: r1, y :: r2 => robs_eqb x y && go r1 r2
                                 | _, _ => false
                                 end) o (rtrace (ref_init b f) ops).
+
+(* the same two comparisons up to 1e-10 (absolute, plus relative to the reference value): for histories whose float products are not exact
+   (eight-decimal quantities, fee 0.001, arbitrary prices); the harness keeps such histories away from the rejection boundary *)
+Definition tolq : Qc := q 1 10000000000.
+Definition qclose (a b : Qc) : bool := qleb (qabs (a - b)) (tolq * (1 + qabs b)).
+Definition obs_close (a b : obs) : bool :=
+  let '(r1, a1, a2, a3, a4, a5) := a in let '(r2, b1, b2, b3, b4, b5) := b in
+  Bool.eqb r1 r2 && qclose a1 b1 && qclose a2 b2 && qclose a3 b3 && qclose a4 b4 && qclose a5 b5.
+Definition model_agrees_close (c : scase) : bool :=
+  let '(b, f, ops, o) := c in list_eqb obs_close (mtrace (init b f) ops) o.
+Definition robs_close (a b : obs) : bool :=
+  let '(r1, a1, a2, a3, a4, a5) := a in let '(r2, b1, b2, b3, b4, b5) := b in
+  if r2 then obs_close a b && qleb (- tolq) a1 && qleb (- tolq) a2 else negb r1.
+Definition impl_meets_ref_close (c : scase) : bool :=
+  let '(b, f, ops, o) := c in
+  (fix go (l1 l2 : list obs) := match l1, l2 with
+                                | [], [] => true
+                                | x :: r1, y :: r2 => robs_close x y && go r1 r2
+                                | _, _ => false
+                                end) o (rtrace (ref_init b f) ops).
